@@ -281,7 +281,7 @@ pub fn check(tier: Tier, threads: usize) -> CheckOutcome {
                 found.entry(sig.clone()).or_insert(Violation {
                     signature: sig,
                     what: format!("limit={} lifecycles={:?}: the server stopped accepting connections ({})", l, k, e),
-                    replay: json!({"engine": "c17", "limit": l, "lifecycles": format!("{:?}", k), "reverse": r}),
+                    replay: json!({"engine": "c17", "limit": l, "lifecycles": k.iter().map(|e| format!("{:?}", e)).collect::<Vec<_>>(), "reverse": r}),
                 });
             }
             Err(e) => mach = Some(format!("limit {} {:?}: {}", l, k, e)),
@@ -291,7 +291,7 @@ pub fn check(tier: Tier, threads: usize) -> CheckOutcome {
                     found.entry(sig.clone()).or_insert(Violation {
                         signature: sig.clone(),
                         what: what.clone(),
-                        replay: json!({"engine": "c17", "limit": l, "lifecycles": format!("{:?}", k), "reverse": r}),
+                        replay: json!({"engine": "c17", "limit": l, "lifecycles": k.iter().map(|e| format!("{:?}", e)).collect::<Vec<_>>(), "reverse": r}),
                     });
                 }
             }
@@ -328,3 +328,18 @@ pub fn check(tier: Tier, threads: usize) -> CheckOutcome {
 
 #[allow(dead_code)]
 fn _unused(_: net::NetCfg) {}
+
+pub fn replay(v: &serde_json::Value) -> Result<Option<String>, String> {
+    let limit = v["limit"].as_u64().unwrap_or(1) as usize;
+    let kinds: Vec<End> = v["lifecycles"]
+        .as_array()
+        .map(|a| a.iter().filter_map(|x| ENDS.iter().copied().find(|e| Some(format!("{:?}", e).as_str()) == x.as_str())).collect())
+        .unwrap_or_default();
+    let reverse = v["reverse"].as_bool().unwrap_or(false);
+    let a = scenario(limit, &kinds, reverse)?.viol;
+    let b = scenario(limit, &kinds, reverse)?.viol;
+    if a != b {
+        return Err("two replays of the same scenario differ".into());
+    }
+    Ok(a.map(|(s, w)| format!("{}: {}", s, w)))
+}
